@@ -1544,3 +1544,47 @@ package ice
 //@   at call:(*chunkedIntCoder).Add#0 lemma[C02,C10] iad == hitNewDocNum && ia0 == 2 * nextFreq + ite(len(locs) > 0, 1, 0) && ia1 == nextNorm
 //@   at call:(*chunkedIntCoder).Add#1 lemma[C02,C10] iad == hitNewDocNum && ia0 == numBytesLocs
 //@   at call:(*chunkedIntCoder).Add#2 lemma[C02,C10] iad == hitNewDocNum
+//@
+//@ // ---- inventories of shared mutable state and of unordered iteration (C09, C14, C15) ----
+//@ // Every package-level variable is on this reviewed list: the four immutable empty sentinels, the
+//@ // two pools (objects are private between Get and Put), the lazily created zstd coders behind
+//@ // sync.Once, and scalars set once by init or never assigned. A new variable must be reviewed.
+//@ globals[C09,C14,C15] decOnce decoder emptyDictionary emptyDictionaryIterator emptyPostingsIterator emptyPostingsList encOnce encoder interimPool newSegmentBufferAvgBytesPerDocFactor newSegmentBufferNumResultsBump newSegmentBufferNumResultsFactor reflectStaticSizeLocation reflectStaticSizeMetaData reflectStaticSizePosting reflectStaticSizePostingsIterator reflectStaticSizePostingsList reflectStaticSizeSegment reflectStaticSizedocValueReader sizeOfPtr sizeOfString sizeOfUint16 sizeOfUint32 sizeOfUint64 termSeparator termSeparatorSplitSlice visitDocumentCtxPool
+//@ // range-over-map loops reachable from the builder, each reviewed for order independence:
+//@ // processDocument: per-field and per-term tables keyed by id, every term has its own postings slot;
+//@ // prepareDictsForDocument: FieldDocs[k]++ per seen field (commutative); writeStoredFields: deletes all keys;
+//@ // updateSize: sums sizes (commutative, not part of the bytes)
+//@ mapranges[C14] newWithChunkMode (*interim).processDocument=1 (*interim).prepareDictsForDocument=1 (*interim).writeStoredFields=1 (*Segment).updateSize=2
+//@
+//@ // ---- C02: the encoders are prepared (chunk size from the surviving cardinality) for every term,
+//@ // including the first term of a field whatever its text ----
+//@ func prepareNewTerm
+//@   ghostset prepared = true
+//@   ensures[C02] result0 == nil ==> prepared
+//@ func finishTerm
+//@   ghostset prepared = false
+//@ func persistMergedRestField
+//@   loop 0 invariant[C02] prevTerm != nil ==> prepared
+//@   at call:(*Dictionary).postingsListFromOffset#0 lemma[C02] prepared
+//@
+//@ // ---- C04/C07: the in-memory segment is initialised from a complete footer (document count and
+//@ // chunk mode are consulted while its doc-value readers are set up) ----
+//@ func initSegmentBase
+//@   requires[C04,C07] @footer_complete footer != nil && footer.chunkMode >= 1 && footer.version == 2
+//@ func newWithChunkMode
+//@   requires[C04,C07] chunkMode >= 1
+//@ func (*interim).convert
+//@   ensures[C04,C07] err == nil ==> f != nil && f.version == 2
+//@ func persistMergedRestField
+//@   // the term loop compares the same two slices twice; finishTerm and isClosed in between write neither
+//@   // the enumerator's key memory nor prevTerm, so the second comparison repeats the first
+//@   at call:bytes.Equal#0 ghostset eq1 = result0
+//@   at call:bytes.Equal#1 assume result0 == eq1
+//@ func initSegmentBase
+//@   requires[C04,C07] @segment_invariant_inputs fieldsMap != nil && len(dictLocs) == len(fieldsInv) && forallstr(k, fieldsMap[k] <= len(fieldsInv))
+//@ func (*interim).writeDicts
+//@   ensures[C04,C07] err == nil ==> len(dictOffsets) == old(len(s.FieldsInv)) && len(s.FieldsInv) == old(len(s.FieldsInv))
+//@ func newWithChunkMode
+//@   // not proved here: convert() leaves FieldsMap/FieldsInv/dictOffsets mutually consistent (every field is
+//@   // defined before the dictionaries are written, and locations name fields of the batch: input contract)
+//@   at call:(*interim).convert#0 assume result3 == nil ==> s.FieldsMap != nil && len(result1) == len(s.FieldsInv) && forallstr(k, s.FieldsMap[k] <= len(s.FieldsInv))
